@@ -45,12 +45,15 @@ PROPS['C17'] = dict(functions=['py_stringsimjoin.profiler.profiler.profile_table
                     trusted=[PANDAS, 'str() and str.join are uninterpreted symbols; the percentage inside the formatted '
                              'statistic is the value the code computes (round(x, 2) in the float model)'])
 
-PROPS['C01'] = dict(functions=ARITH + [SSJ], trusted=[PSM, PANDAS, LEMMA_INJ])
-PROPS['C02'] = dict(functions=[SSJ] + HELPERS, trusted=[PSM, PANDAS, LEMMA_INJ])
-PROPS['C09'] = dict(functions=[SSJ], trusted=[PSM, PANDAS, LEMMA_INJ])
-PROPS['C11'] = dict(functions=HELPERS + [SSJ, MVH], trusted=[PANDAS])
-PROPS['C08'] = dict(functions=[MVH] + HELPERS, trusted=[PANDAS])
-PROPS['C15'] = dict(functions=VALIDATORS, trusted=[PANDAS])
-
 JOINS = ['py_stringsimjoin.join.%s_join_py.%s_join_py' % (m, m) for m in ('jaccard', 'cosine', 'dice')]
-PROPS['T2'] = dict(functions=[JOINS[0]])
+JOBLIB = ('joblib (ASSUMED): Parallel(n)(delayed(F)(a_j) ...) returns [F(a_j)] in order, F runs on copies of its arguments; '
+          'real process scheduling is not modelled')
+
+PROPS['C01'] = dict(functions=ARITH + [SSJ] + JOINS, trusted=[PSM, PANDAS, LEMMA_INJ, JOBLIB])
+PROPS['C02'] = dict(functions=[SSJ] + HELPERS + JOINS, trusted=[PSM, PANDAS, LEMMA_INJ, JOBLIB])
+PROPS['C09'] = dict(functions=[SSJ] + JOINS, trusted=[PSM, PANDAS, LEMMA_INJ])
+PROPS['C11'] = dict(functions=HELPERS + [SSJ, MVH] + JOINS, trusted=[PANDAS])
+PROPS['C08'] = dict(functions=[MVH] + HELPERS + JOINS, trusted=[PANDAS])
+PROPS['C10'] = dict(functions=[GH + 'split_table', GH + 'get_num_processes_to_launch'] + JOINS, trusted=[PANDAS, JOBLIB])
+PROPS['C12'] = dict(functions=JOINS, trusted=[PANDAS, PSM, JOBLIB])
+PROPS['C15'] = dict(functions=VALIDATORS + JOINS, trusted=[PANDAS])
